@@ -6,7 +6,7 @@ OUT="${MATRIX_OUT:-$VERIF/seeded}"
 cd "$VERIF"
 IDS=$(python3 -c "import json;print(' '.join(c['property_id'] for c in json.load(open('MANIFEST.json'))['checks']))")
 for n in "$@"; do
-  out=$(tools/sens.sh "$VERIF/seeded/$n/patch.diff" $IDS 2>&1)
+  out=$(SENS_OWN="${n%%-*}" tools/sens.sh "$VERIF/seeded/$n/patch.diff" $IDS 2>&1)
   echo "$out" > "$OUT/$n/catch.txt"
-  echo "== $n: caught by: $(echo "$out" | grep 'exit=1' | cut -d' ' -f1 | tr '\n' ' ')"
+  echo "== $n: caught by: $(echo "$out" | grep 'exit=1' | grep -v '@seed' | cut -d' ' -f1 | tr '\n' ' ') | own check under other seeds: $(echo "$out" | grep '@seed' | tr '\n' ' ')"
 done
